@@ -83,12 +83,15 @@ class C05(Spec):
             if len({c[0] for c in cookies}) != len(cookies) or len(cookies) > 1:
                 cookies = cookies[:1]          # the jar writes in hash order: one cookie for a byte-exact comparison
             body = bytes(rng.choice(b"abcdefghij\r\n\x00\xff") for _ in range(rng.choice(sizes)))
-            rendered = self.render_len(code, srv, loc, cookies, body)
+            # a header set as name and value only (never written before fix of the third round)
+            raw = (b"X-" + bytes(rng.choice(b"AbcXyz09-") for _ in range(rng.randint(1, 8))), bytes(rng.choice(b"abc 019;=,/") for _ in range(rng.randint(1, 12))).strip() or b"v") if rng.random() < 0.4 else None
+            rendered = self.render_len(code, srv, loc, cookies, body, raw)
             for cap in {rendered - 1, rendered, rendered + 1, rng.choice([rendered // 2, rendered * 3 + 100, 1 << 22])}:
                 if cap < 1:
                     continue
-                cases.append("P %d %d %s %s %s %s" % (code, cap, pv.hexs(srv) if srv else "-", pv.hexs(loc) if loc else "-",
-                                                      ",".join("%s=%s" % (pv.hexs(k), pv.hexs(v)) for k, v in cookies) or "-", pv.hexs(body)))
+                cases.append("P %d %d %s %s %s %s%s" % (code, cap, pv.hexs(srv) if srv else "-", pv.hexs(loc) if loc else "-",
+                                                        ",".join("%s=%s" % (pv.hexs(k), pv.hexs(v)) for k, v in cookies) or "-", pv.hexs(body),
+                                                        (" raw=%s:%s" % (pv.hexs(raw[0]), pv.hexs(raw[1]))) if raw else ""))
         # streamed responses built with every way of putting data into a ResponseStream
         ucases = ["U 200 4194304 w6162,e,w6364", "U 200 4194304 i10,i255,i100,i0,i-7,i2147483647,i-2147483648",
                   "U 200 4194304 a616263,l78797a,l6c6974,c41,b1,b0,u18446744073709551615,u0,u1000",
@@ -124,8 +127,10 @@ class C05(Spec):
             cases.append("T %d %s" % (rng.choice(CODES), ",".join(pv.hexs(c) for c in chunks) or "-"))
         return cases
 
-    def render_len(self, code, srv, loc, cookies, body):
+    def render_len(self, code, srv, loc, cookies, body, raw=None):
         n = len("HTTP/1.1 %d %s\r\n" % (code, REASON[code])) + len("Connection: Keep-Alive\r\n")
+        if raw:
+            n += len(raw[0] + b": " + raw[1] + b"\r\n")
         if srv:
             n += len(b"Server: " + srv + b"\r\n")
         if loc:
@@ -151,7 +156,8 @@ class C05(Spec):
             loc = pv.unhex(t[4]) if t[4] != "-" else None
             cookies = [] if t[5] == "-" else [tuple(pv.unhex(x) for x in kv.split("=")) for kv in t[5].split(",")]
             body = pv.unhex(t[6])
-            size = self.render_len(code, srv, loc, cookies, body)
+            rawh = tuple(pv.unhex(x) for x in t[7][4:].split(":")) if len(t) > 7 else None
+            size = self.render_len(code, srv, loc, cookies, body, rawh)
             if size > cap:
                 if o[1] != "rejected" or o[2] != "received=0":
                     return "response of %d bytes with maximum %d was not refused cleanly: %s" % (size, cap, impl[:100])
@@ -166,7 +172,9 @@ class C05(Spec):
             names = [k for k, _ in hs]
             if c != code or b != body:
                 return "status or body differ: %d/%d, body %d/%d bytes" % (c, code, len(b), len(body))
-            want = [b"Connection", b"Content-Length"] + ([b"Server"] if srv else []) + ([b"Location"] if loc else []) + [b"Set-Cookie"] * len(cookies)
+            want = [b"Connection", b"Content-Length"] + ([b"Server"] if srv else []) + ([b"Location"] if loc else []) + [b"Set-Cookie"] * len(cookies) + ([rawh[0]] if rawh else [])
+            if rawh and (rawh[0], rawh[1]) not in [(k, v) for k, v in hs]:
+                return "the header %r set by the handler as name and value is not on the wire with its value %r" % (rawh[0], rawh[1])
             if sorted(names) != sorted(want):
                 return "header set differs: %s vs %s" % (sorted(names), sorted(want))
             if int(o[3].split("=")[1]) != len(raw):
